@@ -424,3 +424,96 @@ func TestVerifDynamic(t *testing.T) {
 	r.Detail = strings.Replace(r.Detail, "dynamic (not a proof)", "bounded stand-in (not a proof; two stacked profiles, one with a sub-profile, 17 transition spellings, with and without X)", 1)
 	return r
 }
+
+// boundedC03Filter: bounded stand-in (never counted as proved) for the text surgery of the
+// only/exclude directives (marker removal by a regexp built from the directive name,
+// paragraph removal by a regexp compiled from the directive's own line): the real
+// directive.Run on a profile with a paragraph `only`, an inline `exclude` on a rule, an inline `only` on an include line (same directive text as the paragraph `only`) and a paragraph
+// `exclude`, for 6 filter lists each and 16 build targets (4 distributions x ABI {3,4} x
+// version {4.0, 4.1}), compared with a line-based reference: a kept paragraph directive
+// leaves an empty line and its paragraph, a dropped one takes its lines up to and including
+// the next blank line; a kept inline rule loses only its marker, a dropped one becomes an
+// empty line; every other line is unchanged and no #aa: marker survives.
+func boundedC03Filter(env *Env) frame.Result {
+	src := `package directive
+
+import (
+	"fmt"
+	"strings"
+	"testing"
+
+	"github.com/roddhjav/apparmor.d/pkg/paths"
+	"github.com/roddhjav/apparmor.d/pkg/prebuild"
+)
+
+func TestVerifDynamic(t *testing.T) {
+	sd, sf, sa, sv := prebuild.Distribution, prebuild.Family, prebuild.ABI, prebuild.Version
+	defer func() { prebuild.Distribution, prebuild.Family, prebuild.ABI, prebuild.Version = sd, sf, sa, sv }()
+	filters := []string{"apt", "arch", "abi3", "apparmor4.1", "debian whonix", "abi4 opensuse"}
+	fams := map[string]string{"arch": "pacman", "debian": "apt", "whonix": "apt", "opensuse": "zypper"}
+	evals, viol := 0, 0
+	first := ""
+	for _, dist := range []string{"arch", "debian", "whonix", "opensuse"} {
+		for _, abi := range []int{3, 4} {
+			for _, ver := range []float64{4.0, 4.1} {
+				prebuild.Distribution, prebuild.Family, prebuild.ABI, prebuild.Version = dist, fams[dist], abi, ver
+				applies := func(f string) bool {
+					for _, w := range strings.Fields(f) {
+						if w == dist || w == fams[dist] || w == fmt.Sprintf("abi%d", abi) || w == fmt.Sprintf("apparmor%.1f", ver) {
+							return true
+						}
+					}
+					return false
+				}
+				for _, f1 := range filters {
+					for _, f2 := range filters {
+						for _, f3 := range filters {
+							in := []string{"profile foo {", "  include <abstractions/base>", "",
+								"  #aa:only " + f1, "  /guard/p1a r,", "  /guard/p1b r,", "",
+								"  /free/one r,", "  /guard/inline rw, #aa:exclude " + f2, "  include <abstractions/guarded>  #aa:only " + f1, "",
+								"  #aa:exclude " + f3, "  /guard/p2 r,", "",
+								"  /free/two r,", "}", ""}
+							var want []string
+							want = append(want, in[0:3]...)
+							if applies(f1) {
+								want = append(want, "", in[4], in[5], "")
+							}
+							want = append(want, in[7])
+							if !applies(f2) {
+								want = append(want, "  /guard/inline rw,")
+							} else {
+								want = append(want, "")
+							}
+							if applies(f1) {
+								want = append(want, "  include <abstractions/guarded>")
+							} else {
+								want = append(want, "")
+							}
+							want = append(want, "")
+							if !applies(f3) {
+								want = append(want, "", in[12], "")
+							}
+							want = append(want, in[14:]...)
+							got, err := Run(paths.New("foo"), strings.Join(in, "\n"))
+							evals++
+							if err != nil || got != strings.Join(want, "\n") {
+								viol++
+								if first == "" {
+									first = fmt.Sprintf(" target=%s/%s/abi%d/%.1f only %q, inline exclude %q, exclude %q: got %q want %q err=%v", dist, fams[dist], abi, ver, f1, f2, f3, got, strings.Join(want, "\n"), err)
+								}
+							}
+						}
+					}
+				}
+			}
+		}
+	}
+	fmt.Printf("VERIF_DYNAMIC evaluations=%d violations=%d%s\n", evals, viol, first)
+}
+`
+	r := runDynamic(env, "pkg/prebuild/directive", "C03/only-exclude-text-surgery", src)
+	r.Name = "bounded/C03/only-exclude-text-surgery"
+	r.Kind, r.Backend = "bounded", "go test, exhaustive over 6^3 filter lists x 16 build targets"
+	r.Detail = strings.Replace(r.Detail, "dynamic (not a proof)", "bounded stand-in (not a proof; one profile shape with a paragraph only, an inline exclude and a paragraph exclude; 6 filter lists each; 4 distributions x ABI {3,4} x version {4.0,4.1})", 1)
+	return r
+}
